@@ -1,4 +1,273 @@
-/- C13 — model and specification (stub; see HACKING.md) -/
+/-
+  C13 — the shortest-distance matrix reports true symmetry-shortest distances.
+
+  Model of (generic in the number type `K`; the driver runs `Float`, the theorems use an ordered field):
+    SDM.__init__        (sdm.py)   -> `Cell.ofLengths`  (asq … cal)
+    SDM.vector_length   (sdm.py)   -> `vectorLength`
+    Array * Matrix + trans         -> `applyOp`
+    the wrap  D + ½ - floor(D + ½) - ½      -> `wrap`, `wrapV`
+    the operator loop of SDM.calc_sdm        -> `selStep`, `selLoop`, `selectOp`
+    the bond criterion of SDM.calc_sdm       -> `covalentOf` (PART/hydrogen condition: `Extracted.bondAllowed`,
+                                               regenerated from the source expression)
+    SDM.calc_sdm  (the two atom loops, sort) -> `calcSdm`
+    SDM.calc_molindex                        -> `molPass`, `molInner`, `molOuter`, `calcMolindex`
+  Specification (code independent): `ruleBonded`, `specPair` (brute force over operators × a box of lattice
+  translations; the theorems quantify over all of ℤ³), `specLabels` (connected components by label propagation).
+
+  The thresholds are parameters (`Consts`); the driver and the theorems instantiate them with the values the
+  translator reads off sdm.py (`ShelxModel/Extracted/SdmC13.lean`).
+-/
+import ShelxModel.Extracted.SdmC13
+
 namespace Shelx.C13
+
+structure V3 (K : Type) where
+  x : K
+  y : K
+  z : K
+
+/-- a symmetry operator as `SymmetryElement` stores it: the three rows of `.matrix` and `.trans` -/
+structure Op (K : Type) where
+  r0 : V3 K
+  r1 : V3 K
+  r2 : V3 K
+  t : V3 K
+
+/-- the quantities `SDM.__init__` derives from the cell -/
+structure Cell (K : Type) where
+  asq : K
+  bsq : K
+  csq : K
+  aga : K
+  bbe : K
+  cal : K
+
+structure Consts (K : Type) where
+  cut : K
+  bias : K
+  eps : K
+  factor : K
+  half : K
+  big : K
+  nobond : K
+
+structure AtomM (K : Type) where
+  pos : V3 K
+  hyd : Bool
+  part : Int
+  radius : K
+
+structure Item (K : Type) where
+  a1 : Nat
+  a2 : Nat
+  dist : K
+  sym : Nat
+  covalent : Bool
+
+section Model
+variable {K : Type} [Add K] [Sub K] [Mul K] [LT K] [LE K] [DecidableLT K] [DecidableLE K]
+
+def V3.add (a b : V3 K) : V3 K := ⟨a.x + b.x, a.y + b.y, a.z + b.z⟩
+def V3.sub (a b : V3 K) : V3 K := ⟨a.x - b.x, a.y - b.y, a.z - b.z⟩
+
+/-- `SDM.__init__`: `asq = a ** 2`, `aga = a * b * cosga`, `bbe = a * c * cosbe`, `cal = b * c * cosal` -/
+def Cell.ofLengths (a b c cosal cosbe cosga : K) : Cell K :=
+  { asq := a * a, bsq := b * b, csq := c * c, aga := a * b * cosga, bbe := a * c * cosbe, cal := b * c * cosal }
+
+/-- the radicand of `SDM.vector_length` (`2.0 * A` is `A + A` exactly, also in doubles) -/
+def quadForm (c : Cell K) (v : V3 K) : K :=
+  let A := v.x * v.y * c.aga + v.x * v.z * c.bbe + v.y * v.z * c.cal
+  v.x * v.x * c.asq + v.y * v.y * c.bsq + v.z * v.z * c.csq + (A + A)
+
+/-- `SDM.vector_length` -/
+def vectorLength (sqrt : K → K) (c : Cell K) (v : V3 K) : K := sqrt (quadForm c v)
+
+/-- `Array(frac) * symop.matrix + symop.trans` (`Array.__mul__` with a Matrix: `x' = x*m[0][0] + y*m[1][0] + z*m[2][0]`) -/
+def applyOp (o : Op K) (v : V3 K) : V3 K :=
+  ⟨v.x * o.r0.x + v.y * o.r1.x + v.z * o.r2.x + o.t.x,
+   v.x * o.r0.y + v.y * o.r1.y + v.z * o.r2.y + o.t.y,
+   v.x * o.r0.z + v.y * o.r1.z + v.z * o.r2.z + o.t.z⟩
+
+/-- one component of `D = prime - at2 + 0.5; dp = (D - floor(D)) - 0.5`; `d` is `prime - at2` -/
+def wrap (floor : K → K) (half : K) (d : K) : K :=
+  let D := d + half
+  (D - floor D) - half
+
+def wrapV (floor : K → K) (half : K) (v : V3 K) : V3 K :=
+  ⟨wrap floor half v.x, wrap floor half v.y, wrap floor half v.z⟩
+
+/-- Python's `min(a, b)`: `b` only if `b < a` -/
+def pyMin (a b : K) : K := if b < a then b else a
+
+/-- the distance that takes part in the comparison: every operator but the first is handicapped by `bias`,
+    so that the identity wins where two operators give the same contact -/
+def biased (c : Consts K) (n : Nat) (dk : K) : K := if n = 0 then dk else dk + c.bias
+
+/-- body of `for n, symop in enumerate(symmcards)`; state = (`mind`, the item's (dist, symmetry_number)) -/
+def selStep (c : Consts K) (st : K × Option (K × Nat)) (n : Nat) (dk : K) : K × Option (K × Nat) :=
+  if dk > c.cut then st
+  else
+    let b := biased c n dk
+    if b > c.eps ∧ st.1 ≥ b then (pyMin b st.1, some (dk, n)) else st
+
+def selLoop (c : Consts K) : K × Option (K × Nat) → Nat → List K → K × Option (K × Nat)
+  | st, _, [] => st
+  | st, n, dk :: ds => selLoop c (selStep c st n dk) (n + 1) ds
+
+/-- the operator loop for one pair, given the wrapped length for every operator: `none` = no `SDMItem` -/
+def selectOp (c : Consts K) (ds : List K) : Option (K × Nat) := (selLoop c (c.big, none) 0 ds).2
+
+/-- wrapped difference vector for one operator -/
+def wrappedDiff (floor : K → K) (c : Consts K) (o : Op K) (x1 x2 : V3 K) : V3 K :=
+  wrapV floor c.half ((applyOp o x1).sub x2)
+
+def opLengths (floor sqrt : K → K) (c : Consts K) (cell : Cell K) (ops : List (Op K)) (x1 x2 : V3 K) : List K :=
+  ops.map fun o => vectorLength sqrt cell (wrappedDiff floor c o x1 x2)
+
+/-- the bond criterion: `dddd = (r1 + r2) * 1.2` where the PART/hydrogen condition holds, else `0.0`;
+    `covalent = dist < dddd` -/
+def covalentOf (c : Consts K) (allowed : Bool) (r1 r2 dist : K) : Bool :=
+  let dddd := if allowed then (r1 + r2) * c.factor else c.nobond
+  decide (dist < dddd)
+
+def pairItem (floor sqrt : K → K) (c : Consts K) (cell : Cell K) (ops : List (Op K))
+    (i j : Nat) (a1 a2 : AtomM K) : Option (Item K) :=
+  match selectOp c (opLengths floor sqrt c cell ops a1.pos a2.pos) with
+  | none => none
+  | some (d, n) =>
+    some { a1 := i, a2 := j, dist := d, sym := n,
+           covalent := covalentOf c (Extracted.bondAllowed a1.hyd a2.hyd a1.part a2.part) a1.radius a2.radius d }
+
+/-- stable insertion by `dist` (what `list.sort()` does with `SDMItem.__lt__`) -/
+def insertItem (it : Item K) : List (Item K) → List (Item K)
+  | [] => [it]
+  | h :: t => if it.dist < h.dist then it :: h :: t else h :: insertItem it t
+
+def sortItems (l : List (Item K)) : List (Item K) := l.foldl (fun acc it => insertItem it acc) []
+
+def enum {α : Type} (l : List α) : List (Nat × α) := (List.range l.length).zip l
+
+/-- `SDM.calc_sdm`: all ordered pairs (i, j), including i = j, sorted by distance -/
+def calcSdm (floor sqrt : K → K) (c : Consts K) (cell : Cell K) (ops : List (Op K)) (atoms : List (AtomM K)) :
+    List (Item K) :=
+  let ea := enum atoms
+  sortItems (ea.flatMap fun (i, a1) => ea.filterMap fun (j, a2) => pairItem floor sqrt c cell ops i j a1 a2)
+
+end Model
+
+/-! ### molecule numbering (no numbers involved: indices, Int labels) -/
+
+/-- what `calc_molindex` reads of an `SDMItem` -/
+structure Bond where
+  a1 : Nat
+  a2 : Nat
+  covalent : Bool
+
+def upd (m : Nat → Int) (i : Nat) (v : Int) : Nat → Int := fun k => if k = i then v else m k
+
+def fires (m : Nat → Int) (b : Bond) : Bool := b.covalent && decide (m b.a1 * m b.a2 < 0)
+
+def molStep (maxmol : Int) (st : (Nat → Int) × Nat) (b : Bond) : (Nat → Int) × Nat :=
+  if fires st.1 b then (upd (upd st.1 b.a1 maxmol) b.a2 maxmol, st.2 + 1) else st
+
+/-- one `for sdm_item in self.sdm_list` sweep; the count is `someleft` -/
+def molPass (maxmol : Int) (items : List Bond) (m : Nat → Int) : (Nat → Int) × Nat :=
+  items.foldl (molStep maxmol) (m, 0)
+
+/-- `while someleft:` with fuel (`none` = fuel exhausted) -/
+def molInner (maxmol : Int) (items : List Bond) : Nat → (Nat → Int) → Option (Nat → Int)
+  | 0, _ => none
+  | f + 1, m =>
+    let r := molPass maxmol items m
+    if r.2 = 0 then some r.1 else molInner maxmol items f r.1
+
+/-- `for ni, at in enumerate(all_atoms): if not at.ishydrogen and at.molindex < 0: nextmol = ni; break` -/
+def firstUnassigned (hyd : Nat → Bool) (n : Nat) (m : Nat → Int) : Option Nat :=
+  (List.range n).find? fun i => !hyd i && decide (m i < 0)
+
+/-- `while nextmol:` with fuel; returns the labels and `maxmol` -/
+def molOuter (hyd : Nat → Bool) (n : Nat) (items : List Bond) (innerFuel : Nat) :
+    Nat → Int → (Nat → Int) → Option ((Nat → Int) × Int)
+  | 0, _, _ => none
+  | f + 1, maxmol, m =>
+    match molInner maxmol items innerFuel m with
+    | none => none
+    | some m1 =>
+      match firstUnassigned hyd n m1 with
+      | none => some (m1, maxmol)
+      | some ni =>
+        -- `nextmol = ni` is used as the loop condition: index 0 would end the loop
+        if ni = 0 then some (m1, maxmol)
+        else molOuter hyd n items innerFuel f (maxmol + 1) (upd m1 ni (maxmol + 1))
+
+/-- `SDM.calc_molindex` on a fresh `SDM` (`maxmol = 1`); `none` for an empty atom list (IndexError) or
+    exhausted fuel. Fuel `n + 1` for both loops (see `ShelxProps.C13`). -/
+def calcMolindex (hyd : Nat → Bool) (n : Nat) (items : List Bond) : Option ((Nat → Int) × Int) :=
+  if n = 0 then none
+  else molOuter hyd n items (n + 1) (n + 1) 1 (upd (fun _ => -1) 0 1)
+
+/-! ### Specification -/
+
+/-- the factor of the property's statement: bonded = closer than 1.2 times the sum of the covalent radii -/
+def statementFactor : Rat := 6 / 5
+
+/-- the library's bonding rule as the property states it: closer than `factor` times the sum of the covalent
+    radii; never between different non-zero PARTs; hydrogens only within the same PART -/
+def ruleAllowed (h1 h2 : Bool) (p1 p2 : Int) : Prop :=
+  ¬ (p1 ≠ 0 ∧ p2 ≠ 0 ∧ p1 ≠ p2) ∧ ((h1 = true ∨ h2 = true) → p1 = p2)
+
+instance (h1 h2 : Bool) (p1 p2 : Int) : Decidable (ruleAllowed h1 h2 p1 p2) := by
+  unfold ruleAllowed; exact inferInstance
+
+section Spec
+variable {K : Type} [Add K] [Sub K] [Mul K] [LT K] [LE K] [DecidableLT K] [DecidableLE K]
+
+def ruleBonded (factor r1 r2 d : K) (h1 h2 : Bool) (p1 p2 : Int) : Bool :=
+  decide (d < factor * (r1 + r2)) && decide (ruleAllowed h1 h2 p1 p2)
+
+/-- a crystallographic operator of the specification: `x ↦ R x + τ` (rows of R) -/
+structure SOp (K : Type) where
+  r0 : V3 K
+  r1 : V3 K
+  r2 : V3 K
+  tau : V3 K
+
+def SOp.apply (o : SOp K) (v : V3 K) : V3 K :=
+  ⟨o.r0.x * v.x + o.r0.y * v.y + o.r0.z * v.z + o.tau.x,
+   o.r1.x * v.x + o.r1.y * v.y + o.r1.z * v.z + o.tau.y,
+   o.r2.x * v.x + o.r2.y * v.y + o.r2.z * v.z + o.tau.z⟩
+
+/-- metric length of a fractional vector from the cell lengths and cosines (the metric tensor) -/
+def metricSq (a b c cosal cosbe cosga : K) (v : V3 K) : K :=
+  v.x * v.x * (a * a) + v.y * v.y * (b * b) + v.z * v.z * (c * c)
+    + ((v.x * v.y * (a * b * cosga) + v.x * v.z * (a * c * cosbe) + v.y * v.z * (b * c * cosal))
+     + (v.x * v.y * (a * b * cosga) + v.x * v.z * (a * c * cosbe) + v.y * v.z * (b * c * cosal)))
+
+/-- executable specification for one pair: the smallest squared distance between `x2` and the images
+    `R x1 + τ + t` over all operators and all `t` of the box, images closer than `tiny²` (the atom itself)
+    left out; returns (squared distance, operator number) -/
+def specPair (msq : V3 K → K) (tinySq : K) (ops : List (SOp K)) (box : List (V3 K)) (x1 x2 : V3 K) :
+    Option (K × Nat) :=
+  (enum ops).foldl (fun best (n, o) =>
+    box.foldl (fun best t =>
+      let d := msq (((o.apply x1).add t).sub x2)
+      if d ≤ tinySq then best
+      else match best with
+        | none => some (d, n)
+        | some (bd, _) => if d < bd then some (d, n) else best) best) none
+
+end Spec
+
+/-- connected components by label propagation: every atom starts with its own index, `n` rounds of
+    "take the smallest label among bonded neighbours" -/
+def specRelax (n : Nat) (bonded : Nat → Nat → Bool) (lab : List Nat) : List Nat :=
+  (List.range n).map fun i =>
+    (List.range n).foldl (fun acc j =>
+      match lab[j]? with
+      | some lj => if (bonded i j || bonded j i) && lj < acc then lj else acc
+      | none => acc) (match lab[i]? with | some l => l | none => i)
+
+def specLabels (n : Nat) (bonded : Nat → Nat → Bool) : List Nat :=
+  (List.range n).foldl (fun lab _ => specRelax n bonded lab) (List.range n)
 
 end Shelx.C13
